@@ -72,7 +72,8 @@ RULE = (
     'of the canonical case JSON. completion stage: every Buffer method that '
     'takes a completion message x every completion shape (enumerated). '
     'findings stage: the minimal histories of the known findings, outside and '
-    'inside a bind block.')
+    'inside a bind block.'
+    ' servers stage: creations and default-target moves on two servers. Bind blocks may end with an injected transport failure at the flush.')
 
 ASSUMPTIONS = [
     'NRT: Server.default is marked as booted by NrtMain, no server process; '
